@@ -188,6 +188,30 @@ class Purity(object):
                 if not ok and not self.why:
                     self.why = "str.replace with operands not known to be text"
                 return ok
+            if isinstance(e.func, ast.Attribute) and e.func.attr == "format" and not e.keywords:
+                fmt = _const_str(self.prog, self.func, e.func.value)
+                if fmt is not None:
+                    import string as _string
+                    try:
+                        fields = [(fn2, spec, conv) for _, fn2, spec, conv in _string.Formatter().parse(fmt) if fn2 is not None]
+                    except ValueError:
+                        fields = None
+                    if fields is not None and all((fn2 == "" or fn2.isdigit()) and not spec and conv in (None, "s", "r") for fn2, spec, conv in fields):
+                        auto = [x for x in fields if x[0] == ""]
+                        idx_ok = (len(auto) == len(fields) and len(auto) == len(e.args)) or \
+                            (not auto and all(int(x[0]) < len(e.args) for x in fields))
+                        if idx_ok:
+                            ok = True
+                            for a in e.args:
+                                if not self.pure(a, at_node):
+                                    ok = False
+                                elif isinstance(a, ast.Name) and not (self.text_local(a.id, at_node) or _const_str(self.prog, self.func, a) is not None
+                                                                      or a.id in self.func.params[1:]):
+                                    self.why = "{} of %s, which is not known to be text" % a.id
+                                    ok = False
+                            if ok:
+                                return True
+                            return False
             self.why = "call %s(...) after the file was opened" % fn
             return False
         if isinstance(e, ast.BoolOp):
